@@ -113,6 +113,10 @@ pub fn apply<V: VirtualFileSystem>(vfs: &V, f: &[&str]) -> Option<String> {
             if get(&o, "follow").map(|x| x != "0").unwrap_or(false) {
                 c = c.follow(true);
             }
+            // the working directory changing between building the copier and running it (a relative spelling, hex)
+            if let Some(d) = get(&o, "cwd") {
+                let _ = vfs.set_cwd(crate::unhex_s(&d));
+            }
             r_unit(c.exec())
         },
         "chmod_b" => {
